@@ -47,6 +47,8 @@ REQUIRED_THEOREMS = [
     "SpecVerif.Props.C20.deepcopy_restores",
     "SpecVerif.Props.C20.history_restored",
     "SpecVerif.Props.C20.trace_wellBracketed",
+    "SpecVerif.Props.C20.micro_inv_reachable",
+    "SpecVerif.Props.C20.micro_safe",
     "SpecVerif.Props.C20.legacy_leak",
     "SpecVerif.Props.C20.legacy_race",
     "SpecVerif.Props.C20.legacy_two_instances_race",
@@ -1153,7 +1155,7 @@ def extra(tier, rng):
 KNOWN_MATCHERS = {}
 
 MANIFEST_ENTRY = {
-    "level_text": "Lean 4 proof, for any number of threads, any nesting depth and any interleaving of enter/exit/copy/raise steps, that the copy-protection protocol of spec_classes.utils.mutation keeps the invariant (refcount = number of open protected blocks; entry present while anybody is inside; patched flag means the entry is ours and none existed before), hence: at every quiescent point copyreg.dispatch_table[ModuleType] is exactly what it was before the library was used (also with a foreign reducer present), every thread inside a copy always finds a reducer, __exit__ never raises, and an exception at any point inside a protected block unwinds to a restored state; every protect_via_deepcopy/deepcopy of any value tree is a well-bracketed instance of the protocol; a statement-level model with the lock proves the same for pre-emption between any two statements of __enter__/__exit__. Tied to /repo on every run by (a) predicted event traces of value trees and validated event traces of library-operation histories, (b) a fault injected at executed library lines of copying operations, (c) real threads under a deterministic scheduler: all schedules with <= 2 pre-emptions at lines of the copy-protection code plus random-priority schedules, each linearised trace replayed on the model. PARTIAL for schedules: pre-emption inside C code (copy internals, dict operations), free-threaded builds and concurrent foreign writers of copyreg are not expressible in the model.",
+    "level_text": "Lean 4 proof, for any number of threads, any nesting depth and any interleaving of enter/exit/copy/raise steps, that the copy-protection protocol of spec_classes.utils.mutation keeps the invariant (refcount = number of open protected blocks; entry present while anybody is inside; patched flag means the entry is ours and none existed before), hence: at every quiescent point copyreg.dispatch_table[ModuleType] is exactly what it was before the library was used (also with a foreign reducer present), every thread inside a copy always finds a reducer, __exit__ never raises, and an exception at any point inside a protected block unwinds to a restored state; every protect_via_deepcopy/deepcopy of any value tree (containers, instances, uncopyable values, raising __post_copy__) is a well-bracketed instance of the protocol, and any history of them, interleaved with another library changing its own registration at quiescent points, ends with the table the environment last put there; a statement-level model (every statement of __enter__/__exit__ a separate step, the class-level lock explicit) is proved safe under every interleaving of single statements, so the atomicity of enter/exit is derived, not assumed. Tied to /repo on every run by (a) predicted event traces of value trees and validated event traces of library-operation histories, (b) a fault injected at executed library lines of copying operations, (c) real threads under a deterministic scheduler: all schedules with <= 2 pre-emptions at every statement of the copy-protection code (and at its bytecodes for the statements touching the counter), a first-use scenario creating two guard instances, plus random-priority schedules, each linearised trace replayed on the model. PARTIAL for schedules: pre-emption inside C code (copy internals, dict operations), free-threaded builds and concurrent foreign writers of copyreg are not expressible in the model.",
     "level_note": "Trusted: Lean kernel; axioms propext/Classical.choice/Quot.sound only; the hand-written protocol model; harness/sched.py and the CPython guarantee that a statement of __enter__/__exit__ is the unit of pre-emption; faults inside the bodies of __enter__/__exit__ themselves are excluded by design (DESIGN.md section 10 item 10). Pre-fix code is kept as Legacy counter-models with decide-checked witnesses (nested leak, two-thread failing copy, two guard instances).",
     "technique": "Lean 4 inductive invariant over an interleaving transition system + well-bracketedness of compiled copy programs; differential trace correspondence, fault injection and deterministic schedule exploration against the real code",
 }
